@@ -16,6 +16,7 @@ EXPLANATION = ("thorough: every valid value of widths 1-5 is enumerated (exhaust
                "valid-value clause); malformed strings exhaustive to width 3, sampled beyond")
 EXHAUSTIVE = {"quick": False, "thorough": False}
 RULE = RULE + ' Round 8: malformed fields also go through the record door Atom(line=...); 35 % of the serial cases carry nucleotides, ligand fragments or ions.'
+RULE = RULE + ' Rounds 11-12: letter-led fields with non-ASCII digits; a sulfate ligand in the serial cases; serial 0 on file hydrogens under -k.'
 ASSUMPTIONS = ["a leading '-' in front of the letter forms is accepted (pinned by "
                "tests/test_hybrid36.py), so it is not counted as malformed",
                "reference grammar: optional sign, then digits+ | [A-Z][0-9A-Z]* | [a-z][0-9a-z]*"]
